@@ -134,6 +134,7 @@ func VerifC19_TransferConfig() {
 	routers := map[string]v2.RouterConfiguration{}
 	extends := map[string]bool{}
 	extendOrder := []string{}
+	extendVal := map[string]string{}
 	steps := verif.Param("steps", 3, 4)
 	for i := 0; i < steps; i++ {
 		switch verif.Choose("op", 8) {
@@ -167,12 +168,15 @@ func VerifC19_TransferConfig() {
 			SetRouter(r)
 			routers[r.RouterConfigName] = r
 		case 6:
+			// an extend is recorded, or a recorded one is updated with another value
 			t := zzName("e", verif.Choose("ename", 2))
-			SetExtend(t, json.RawMessage(`{"zzk":"zzv"}`))
+			val := []string{"v1", "v2"}[verif.Choose("evalue", 2)]
+			SetExtend(t, json.RawMessage(`{"zzk":"`+val+`"}`))
 			if !extends[t] {
 				extends[t] = true
 				extendOrder = append(extendOrder, t)
 			}
+			extendVal[t] = val
 		default:
 		}
 	}
@@ -228,6 +232,12 @@ func VerifC19_TransferConfig() {
 		if i < len(extendOrder) {
 			verif.Assert(e.Type == extendOrder[i], "the extends are not dumped in the order they were recorded")
 			verif.Assert(!zzRawEmpty(e.Config), "an extend lost its configuration")
+			var got map[string]string
+			if json.Unmarshal(e.Config, &got) == nil {
+				verif.Assert(got["zzk"] == extendVal[e.Type], "the dump holds a value of an extend that is not the one recorded last")
+			} else {
+				verif.Assert(false, "an extend's configuration does not load")
+			}
 		}
 	}
 	if len(srv.Routers) == 2 {
